@@ -135,7 +135,13 @@ def ports_of(kind: str):
 _nc = itertools.count(1000)
 
 
+# connections that can only be passing states of a history: references to a port / bundle member that does not exist
+TRANSIENT = {"pref-typo": ["pref", "u", "zzq"], "bref-typo": ["bref", "bb", ["zzmember"]], "pref-typo-sliced": ["slice", ["pref", "u", "zzw"], 0]}
+
+
 def realize(kind, port, k):
+    if k in TRANSIENT:
+        return copy.deepcopy(TRANSIENT[k])
     e = kinds_for(kind, port)[k]
     if e is None:
         return ["nc", next(_nc), None]
@@ -321,6 +327,13 @@ def gen_random(rng, kind, maxlen):
             form = rng.choice(["call", "setattr", "connect"])
         hist.append((form, port, k))
         model[port] = k
+    # a misspelt reference, corrected by a later operation on the same port
+    if rng.random() < 0.25:
+        idx = [i for i, (f, p, k) in enumerate(hist) if f in ("call", "setattr", "connect") and ":" not in p
+               and any(p2 == p and f2 in ("call", "setattr", "connect", "replace") for (f2, p2, k2) in hist[i + 1:])]
+        if idx:
+            i = rng.choice(idx)
+            hist.insert(i + 1, ("setattr", hist[i][1], rng.choice(["pref-typo", "bref-typo"])))
     return hist + complete(kind, model, rng)
 
 
